@@ -293,7 +293,12 @@ def _make_op(rng, ident_pool, fail_p, labelmsm=None):
     ident = rng.choice(ident_pool)
     need, p = _payload(rng, ident)
     lm = labelmsm if labelmsm is not None else rng.choice((1, 2))
-    if rng.random() < fail_p:
+    if rng.random() < 0.07:
+        # a type without definition (stub): undefined numbers next to defined families,
+        # reserved numbers inside the MSM block, unimplemented 4076 sub-types
+        p = corpus.stub_payload(rng)
+        need = len(p)
+    elif rng.random() < fail_p:
         p = _failing_variant(rng, need, p)
     r = rng.random()
     if r < 0.5:
